@@ -109,4 +109,52 @@ theorem notif_one_leader_per_term (V : List Nat) (c0 : Cluster) (ls : List Label
 example : traceAll (envB [1, 2, 3]) c3 f28Trace = true ∧ traceAll (envB [1, 2, 3]) c3 f2Notif = true ∧
     pubsOf (run c3 okTrace) 3 = [some (1, 2)] := by decide
 
+/-! ### the internal event queue (F34, fixed a9db8e0)
+
+`runIQ` (Model/Elect.lean) is the model of `drain_internal_events` / `process_internal_events` / the draining inside
+`handle_internal_event(NotifyNewCommitIndex)`; the `elect` correspondence (op `iq`) feeds the same event lists to a
+real `Raft` through its real internal channel.  `runIQ false` is the rule of the code as it is (the event that follows
+the merged commit notifications keeps its place), `runIQ true` the rule before the fix (it was re-sent to the channel
+tail). -/
+
+/-- leader 1 of term 2 with its noop pending, nothing published yet -/
+def leader12 : Node := becomeLeader (startElection (becomeCandidate (bootNode 1 false none 0 0 [])))
+
+/-- a higher-term reply and a commit notification are buffered, `NoopCommitted{2}` is already in the channel -/
+def f34Queue : IQ := ⟨leader12, [.higherTermReply 5, .commitIdx 1], [.noopCommitted 2], []⟩
+
+/-- the same with an announcement of the leader of term 5 queued behind the noop commit -/
+def f34Queue' : IQ := ⟨leader12, [.commitIdx 1], [.noopCommitted 2, .leaderDiscovered 3 5], []⟩
+
+/-- **F34 regression**: with the rule before the fix the node announced itself as leader after it had stepped down,
+    and a notification of term 2 could follow one of term 5 (`notif_terms_monotone`'s predicate fails); with the
+    rule of the code as it is both are fine. -/
+theorem f34_regression :
+    selfAnnounceOK 1 (runIQ true 100 20 f34Queue).log = false ∧
+    selfAnnounceOK 1 (runIQ false 100 20 f34Queue).log = true ∧
+    (runIQ true 100 20 f34Queue).node.pubs.reverse = [some (1, 2)] ∧
+    (runIQ true 100 20 f34Queue).node.role = .follower ∧
+    sortedLE (pubTerms (runIQ true 100 20 f34Queue').node.pubs.reverse) = false ∧
+    sortedLE (pubTerms (runIQ false 100 20 f34Queue').node.pubs.reverse) = true := by decide
+
+/-- merging commit notifications never reorders the other events (rule of the code as it is): the events that are
+    not commit notifications are handled in exactly the order buffer ++ channel -/
+theorem mergeCommits_keeps_order (fuel : Nat) (buffer channel : List IEv) :
+    let r := mergeCommits false fuel buffer channel
+    (r.1 ++ r.2).filter (fun e => match e with | .commitIdx _ => false | _ => true)
+      = (buffer ++ channel).filter (fun e => match e with | .commitIdx _ => false | _ => true) := by
+  induction fuel generalizing buffer channel with
+  | zero => simp [mergeCommits]
+  | succ n ih =>
+    cases channel with
+    | nil => simp [mergeCommits]
+    | cons e rest =>
+      cases e with
+      | commitIdx k =>
+        simp only [mergeCommits]
+        have := ih buffer rest
+        simp only [List.filter_append, List.filter_cons] at this ⊢
+        simpa using this
+      | _ => simp [mergeCommits]
+
 end DEngine.C31
